@@ -200,7 +200,7 @@ class IO:
         _, exc, seam = self._armed(sim, op, d, lambda dd: self._write(sim, fmt, dd, subset, op.get("overwrite", False)), "w")
         if seam == "twin_failed":
             return None
-        out = {"resolved": {"fmt": fmt, "subset": None if subset is None else sorted(subset)}, "tags": [fmt] + (["subset"] if subset else []), "io": None if seam is None else len(seam.events)}
+        out = {"resolved": {"fmt": fmt, "subset": None if subset is None else sorted(subset)}, "tags": [fmt] + (["subset"] if subset else []), "io": None if seam is None else (seam.fired_at if seam.fired else len(seam.events))}
         injected = isinstance(exc, InjectedOSError) or (exc is not None and seam.fired is not None and isinstance(exc, OSError))
         if exc is None:
             out["cls"] = "accepted"
